@@ -27,7 +27,9 @@ theorem Basis.mk?_ok_c14 (order : ℕ) (knots : Array K) (periodic : Int) (tol :
       · exact absurd h (by simp)
       · split at h
         · exact absurd h (by simp)
-        · cases h; exact ⟨rfl, rfl, rfl, by omega⟩
+        · split at h
+          · exact absurd h (by simp)
+          · cases h; exact ⟨rfl, rfl, rfl, by omega⟩
 
 namespace Mat
 omit [LinearOrder K] [FloorRing K] in
